@@ -34,7 +34,7 @@ LINK = ['-Wl,--wrap=pthread_mutex_lock', '-Wl,--wrap=pthread_mutex_unlock', '-Wl
 SAN_ENV = {
     'ASAN_OPTIONS': 'detect_stack_use_after_return=1:detect_leaks=0:abort_on_error=0:exitcode=97:allocator_may_return_null=1',
     'UBSAN_OPTIONS': 'print_stacktrace=1:halt_on_error=1:exitcode=98',
-    'TSAN_OPTIONS': 'halt_on_error=0:report_thread_leaks=0:exitcode=0:second_deadlock_stack=1:history_size=4',
+    'TSAN_OPTIONS': 'atexit_sleep_ms=0:halt_on_error=0:report_thread_leaks=0:exitcode=0:second_deadlock_stack=1:history_size=4',
 }
 
 
